@@ -22,6 +22,10 @@ func C11SetBackend(f func(r *http.Request) (*http.Response, error)) {
 		return
 	}
 	fnSendRequest = func(r *http.Request, client *http.Client) (*http.Response, error) {
+		if client == nil {
+			// behave like the real transport would: (*http.Client)(nil).Do panics
+			return client.Do(r)
+		}
 		return f(r)
 	}
 }
